@@ -162,6 +162,13 @@ fn run(line: &str) -> String {
         let real_tl = || -> VTimeline {
             if dur.is_infinite() { tl_v(delay, 1.0, Repeat::Infinite) } else { tl_v(delay, (dur - delay).max(1e-3), Repeat::None) }
         };
+        // optionally another entity with its own animator, spawned (and therefore iterated) first
+        let other = field(line, "other");
+        if !other.is_empty() && other != "null" {
+            let mut oa = if other == "with_timeline" { Animator::with_timeline(tl_v(0.0, 1000.0, Repeat::None)) } else { Animator::<V>::new() };
+            if field(line, "other_enabled") == "false" { oa = oa.as_disabled(); }
+            app.world.spawn((V { x: 1.0 }, oa));
+        }
         let e = if has_tgt { app.world.spawn((V { x: 3.0 }, Animator::<V>::new())).id() } else { app.world.spawn(Animator::<V>::new()).id() };
         let mut now = Instant::now();
         app.world.resource_mut::<Time>().update_with_instant(now);
@@ -225,6 +232,21 @@ fn run(line: &str) -> String {
         if !ev_ok { bad.push("event-iff-state-change".into()); }
         return format!("{{\"violated\":{},\"claims\":\"{}\",\"detail\":\"pre-state {:?} enabled={} position {:?} (delay {}, total duration {}), component x = {}, frame delta {} s{} -> state {:?}, position {:?}, x = {} (terminal value {}), events {:?}\"}}",
                        !bad.is_empty(), bad.join(","), st0, enabled, pos0, rdly, rdur, x_start, delta, if paused { " (clock paused: zero-length frame)" } else { "" }, ns, npos, nx, terminal, evs);
+    }
+    if kind == "bevy_two_plugins" {
+        // two AnimationPlugins in one App: every animated component type gets its per-frame system
+        let mut app = App::new();
+        app.add_plugins((AnimationPlugin::<V>::new(), AnimationPlugin::<W>::new())).init_resource::<Time>();
+        let tw = W::timeline().duration_seconds(1.0).keyframe(W::keyframe(0.0).y(1.0)).keyframe(W::keyframe(1.0).y(9.0)).build();
+        let ev = app.world.spawn((V { x: 3.0 }, Animator::<V>::with_timeline(tl_v(0.0, 1.0, Repeat::None)))).id();
+        let ew = app.world.spawn((W { y: 0.0 }, Animator::<W>::with_timeline(tw))).id();
+        let mut now = Instant::now();
+        app.world.resource_mut::<Time>().update_with_instant(now);
+        for _ in 0..8 { now += Duration::from_secs_f32(0.25); app.world.resource_mut::<Time>().update_with_instant(now); app.update(); }
+        let (sv, sw) = (app.world.get::<Animator<V>>(ev).unwrap().state(), app.world.get::<Animator<W>>(ew).unwrap().state());
+        let (xv, yw) = (app.world.get::<V>(ev).unwrap().x, app.world.get::<W>(ew).unwrap().y);
+        let bad = sv != AnimationState::Ended || sw != AnimationState::Ended || xv != 20.0 || yw != 9.0;
+        return format!("{{\"violated\":{},\"detail\":\"after 8 frames of 0.25 s (both timelines last 1 s): Animator<V> is {:?} with x = {} (final value 20), Animator<W> is {:?} with y = {} (final value 9), position of Animator<W> {:?}\"}}", bad, sv, xv, sw, yw, app.world.get::<Animator<W>>(ew).unwrap().timeline_position);
     }
     if kind == "bevy_chain_step" {
         // One frame of the real chain_animations system: entity 0 has selector + chain (key `cur`), entity 1 has neither; the given
